@@ -305,6 +305,28 @@ int main(int argc, char** argv)
          return run_lp(lp, cfg1, c, pass == 0);
       }, descA(&fsS, &cfg1), o, sigsfx(&cfg1));
    }
+   {
+      // phase A3: 3x3 LPs with ranged rows and boxed columns under the default configuration only (multi-round presolve: aggregation, multi-aggregation, bound
+      // propagation interact only from three rows / columns on); every stride-th member of the 6.8e7-member family
+      static FamilySet f3;
+      f3 = FamilySet();
+      f3.add(famT(3, 3, {-1, 0, 1}, {-1, 1}, {0, 3}, {0, 2, 3}, 6));
+      static std::vector<ConfigSpace::Cfg> cfgD;
+      cfgD.assign(1, cfg1[0]);
+      uint64_t stride3 = f3.total / (thorough ? 6000000 : 400000) + 1;
+      auto lp3 = [stride3](uint64_t k, TinyLP & lp) -> bool
+      {
+         uint64_t raw = k * stride3, lim = std::min<uint64_t>(raw + stride3, f3.total);
+         while(raw < lim && !f3.get(raw, lp)) ++raw;
+         return raw < lim;
+      };
+      rep.phase("T(3,3) with ranged rows and boxed columns x default (every " + std::to_string(stride3) + "th)", f3.total / stride3, [&, lp3](uint64_t idx, int pass, Ctx & c) -> uint64_t
+      {
+         TinyLP lp;
+         if(!lp3(idx, lp)) return 0;
+         return run_lp(lp, cfgD, c, pass == 0);
+      }, [lp3](uint64_t idx, uint64_t) { TinyLP lp; lp3(idx, lp); return lp.str() + "#default"; }, o, sigsfx(&cfgD));
+   }
    if(thorough)
    {
       // phase B: Q x all configurations with exactly 2 deviations
